@@ -136,6 +136,10 @@ LAYOUTS = {
                    '@OPS@'],
     'after_sub': ['@OPS@', 'END', 'SUB foo', 'END SUB', 'DATA i0', 'lab1:',
                   'DATA i1, i2'],
+    'label_after_all': ['DATA i0, i1', 'DATA i2', '@OPS@', 'END', 'lab9:',
+                        'PRINT "#"'],
+    'label_after_all2': ['DATA i0', 'lab1:', 'DATA i1, i2', '@OPS@', 'END',
+                         'lab9:'],
 }
 # for each layout: ordered item list and, per label, index of the first item
 # of the first DATA statement at or after the label (source order)
@@ -146,6 +150,8 @@ LAYOUT_LABELS = {
     'lab_no_data': {'lab1': 1, 'lab2': 1},
     'two_labels': {'lab1': 1, 'lab2': 1},
     'after_sub': {'lab1': 1},
+    'label_after_all': {'lab9': 3},
+    'label_after_all2': {'lab1': 1, 'lab9': 3},
 }
 
 SEQS = {
@@ -158,6 +164,8 @@ SEQS = {
     's_int_R': [('r', '%'), ('R', None), ('r', '&'), ('r', '%')],
     's_Rl2': [('r', '$'), ('R', 'lab2'), ('r', '$'), ('r', '$')],
     's_Rl0': [('r', '$'), ('r', '$'), ('R', 'lab0'), ('r', '$')],
+    's_rRl9r': [('r', '$'), ('R', 'lab9'), ('r', '$')],
+    's_Rl9Rr': [('R', 'lab9'), ('R', None), ('r', '$'), ('r', '$')],
 }
 
 
